@@ -12,6 +12,7 @@ pub mod prefee;
 pub mod privsim;
 pub mod xrate;
 pub mod tx;
+pub mod acctlife;
 
 pub fn lookup(name: &str) -> Option<fn(&str) -> String> {
     Some(match name {
@@ -34,6 +35,7 @@ pub fn lookup(name: &str) -> Option<fn(&str) -> String> {
         "txval" => tx::run_val,
         "txsim" => tx::run_sim,
         "txend" => tx::run_end,
+        "acctlife" => acctlife::run,
         _ => return None,
     })
 }
